@@ -800,6 +800,10 @@ func gen(t *rapid.T) Case {
 	if l := schema.AddAugments(t, set, 0, 3); len(l) > 0 {
 		feats = append(feats, "augments")
 	}
+	if rapid.IntRange(0, 5).Draw(t, "augment-chain") == 0 {
+		schema.AddAugmentChain(t, set)
+		feats = append(feats, "augment-chain")
+	}
 	schema.AddIdentities(t, set, 6)
 	if rapid.Bool().Draw(t, "ties") && addTies(t, set) {
 		feats = append(feats, "identity-name-ties")
